@@ -50,10 +50,6 @@ Section Run.
   Qed.
 End Run.
 
-(* is_live after updates of [live] *)
-Lemma is_live_alt s j : is_live s j = true <-> live s !! j = Some true.
-Proof. unfold is_live. destruct (live s !! j) as [[]|]; naive_solver. Qed.
-
 (* Case split of one step.  [H : step F f s a = Some s'] where [s] has been destructed into its fields.
    Leaves one goal per control-flow path with [s'] substituted. *)
 Ltac step_split H :=
@@ -75,4 +71,23 @@ Ltac step_cases H :=
       unfold job_step, wake_step, core_locked, core_gone, pollable, outside_poll, desync_alive, enqueue in H; cbn in H;
       step_split H;
       try (injection H as <-)
+  end.
+
+Lemma wk_idle_true w : wk_idle w = true -> w = WIdle.
+Proof. by destruct w. Qed.
+
+(* turn boolean test results recorded by [step_cases] into propositions *)
+Ltac bool_hyps :=
+  repeat match goal with
+  | H : _ && _ = true |- _ => apply andb_prop in H as [? ?]
+  | H : _ && _ = false |- _ => apply andb_false_iff in H
+  | H : wk_idle _ = true |- _ => apply wk_idle_true in H
+  | H : negb _ = true |- _ => apply negb_true_iff in H
+  | H : negb _ = false |- _ => apply negb_false_iff in H
+  | H : (_ <? _) = true |- _ => apply Nat.ltb_lt in H
+  | H : (_ <? _) = false |- _ => apply Nat.ltb_ge in H
+  | H : (_ <=? _) = true |- _ => apply Nat.leb_le in H
+  | H : (_ <=? _) = false |- _ => apply Nat.leb_gt in H
+  | H : (_ =? _) = true |- _ => apply Nat.eqb_eq in H
+  | H : (_ =? _) = false |- _ => apply Nat.eqb_neq in H
   end.
